@@ -347,6 +347,30 @@ func (z *normalizer) ifToSwitch(ifs *ast.IfStmt) ast.Stmt {
 		break
 	}
 	if haveDefault {
+		// "if x == A {..return}; if x == B {..return}; rest" nests: the default of the first switch is
+		// the second switch on the same expression. One flat switch says the same.
+		for len(deflt) == 1 {
+			inner, ok := deflt[0].(*ast.SwitchStmt)
+			if !ok || inner.Init != nil || inner.Tag == nil || types.ExprString(inner.Tag) != xs {
+				break
+			}
+			var innerDefault []ast.Stmt
+			hasInnerDefault := false
+			for _, st := range inner.Body.List {
+				cc := st.(*ast.CaseClause)
+				if cc.List == nil {
+					innerDefault, hasInnerDefault = cc.Body, true
+					continue
+				}
+				sw.Body.List = append(sw.Body.List, cc)
+			}
+			deflt, haveDefault = innerDefault, hasInnerDefault
+			if !hasInnerDefault {
+				break
+			}
+		}
+	}
+	if haveDefault {
 		pos := ifs.End()
 		if len(deflt) > 0 {
 			pos = deflt[0].Pos()
